@@ -219,8 +219,10 @@ def run(ctx):
             ds = f"group:{int(d.address)}"
         else:
             ds = f"bcast:{int(d.address)}"
-        return (f"P src={int(p.src.address)} sep={int(p.src_ep)} dst={ds} dep={int(p.dst_ep)} tsn={int(p.tsn)} prof={int(p.profile_id)} "
-                f"clus={int(p.cluster_id)} data={hx(p.data.serialize())} lqi={int(p.lqi)} rssi={int(p.rssi)}")
+        def num(x):
+            return "None" if x is None else int(x)   # (a field that is not a number is printed as what it is, and then differs)
+        return (f"P src={num(p.src.address)} sep={num(p.src_ep)} dst={ds} dep={num(p.dst_ep)} tsn={num(p.tsn)} prof={num(p.profile_id)} "
+                f"clus={num(p.cluster_id)} data={hx(p.data.serialize())} lqi={num(p.lqi)} rssi={num(p.rssi)}")
 
     for i, (version, kind, frame, v, rec, esc) in enumerate(rows):
         ctx.cov["evaluations"] += 1
